@@ -7,7 +7,9 @@ from props import c03
 ID = "C04"
 ANCHORS = ["corankco/consensus.py", "corankco/algorithms/bioconsert/bioconsert.py",
            "corankco/algorithms/exact/exactalgorithmpulp.py", "corankco/algorithms/pickaperm/pickaperm.py"]
-RULE = ("same runs as C03 (all algorithm configurations x datasets x schemes x both return_at_most_one_ranking); observed: "
+RULE = ("same runs as C03 (all algorithm configurations x datasets x schemes x both return_at_most_one_ranking) + 30% local-"
+        "search configurations under schemes whose scores are nearly equal (relatively: penalties ~2^20; absolutely: grids "
+        "1/4096 and 1/2^18); observed: "
         "features[KEMENY_SCORE] BEFORE the score property is read (algorithm-supplied value: BioConsert bookkeeping, PuLP "
         "objective, PickAPerm minimum; -1 = not supplied) and the value of .kemeny_score; predicate (Lean): present, "
         "non-negative, equal to the definition's score of EVERY returned ranking; non-trivial = algorithm-supplied score on an "
@@ -21,7 +23,26 @@ def budget(tier):
     return 2500 if tier == "quick" else 25000
 
 
-gen = c03.gen
+LOCAL_SEARCH = [["bioconsert", []], ["bioconsert", []], ["bioconsert", [["kwik"], ["copeland"]]], ["bioco"],
+                ["parcons", ["bioconsert", []], 2], ["bioconsert", [["kwik"]]]]
+
+
+def gen(rng, index, tier):
+    case = c03.gen(rng, index, tier)
+    if rng.random() < 0.3:
+        # local-search bookkeeping under schemes whose scores are close to each other (relatively: `large`, absolutely:
+        # `fine`, `close`): several departures, several local optima with nearly equal scores, all rankings requested
+        import copy
+        config = copy.deepcopy(rng.choice(LOCAL_SEARCH))
+        raw, meta = lib.gen_dataset(rng, nmax=6, mmax=5, family=rng.choice(["uniform", "sparse", "near", "blocky"]))
+        if config[0] == "bioco":
+            sch = common.family_scheme(rng, rng.choice(["unifying", "unifying_half", "induced"]))
+        else:
+            sch = lib.gen_scheme(rng, family=rng.choice(["large", "large", "close", "close", "fine"]))
+        case = {"dataset": raw, "scheme": sch, "config": config, "amo": rng.random() < 0.4, "meta": meta}
+    return case
+
+
 fixed_cases = c03.fixed_cases
 impl = c03.impl
 shrink = c03.shrink
